@@ -219,50 +219,119 @@ func ruleMemorySortLast(e *Engine, r *Reporter) {
 }
 
 // ruleTokenHandling: tokens are decoded (and for ReadChanges type-checked) before the backend call.
+// The decode / deserialise steps may live in Execute itself or in a helper Execute calls (one level): then the
+// obligation splits into "the helper succeeds only behind the check" and "Execute reaches the backend only behind
+// the helper's success".
 func ruleTokenHandling(e *Engine, r *Reporter) {
 	r.Rule("token-decoded-and-checked", "each paging command passes the backend a position obtained from Encoder.Decode of the request token, returns an error when decoding fails, and ReadChanges additionally reaches the backend with a token only when the token's type equals the requested type", 5)
 	type spec struct{ typ, backendMethod string }
+	type site struct {
+		h    *ssa.Function       // function containing the call
+		call ssa.CallInstruction // the Decode / Deserialize call
+		via  ssa.CallInstruction // call in Execute to h (nil when h is Execute)
+	}
+	errOf := func(c ssa.CallInstruction) func(Fact) bool {
+		return func(f Fact) bool {
+			if f.Kind != "nil" || !f.Positive || !isErrorType(f.X.Type()) {
+				return false
+			}
+			return derivesFrom(f.X, func(v ssa.Value) bool {
+				if v == c.(ssa.Value) {
+					return true
+				}
+				ex, ok := v.(*ssa.Extract)
+				return ok && ex.Tuple == c.(ssa.Value)
+			})
+		}
+	}
+	okRet := func(in ssa.Instruction) bool {
+		ret, ok := in.(*ssa.Return)
+		if !ok {
+			return false
+		}
+		if len(ret.Results) > 0 {
+			last := ret.Results[len(ret.Results)-1]
+			if isErrorType(last.Type()) && !isNilConst(last) {
+				return false
+			}
+		}
+		return true
+	}
 	for _, s := range []spec{{"ReadQuery", "ReadPage"}, {"ReadChangesQuery", "ReadChanges"}, {"ListStoresQuery", "ListStores"}, {"ReadAuthorizationModelsQuery", "ReadAuthorizationModels"}} {
 		fn := e.Func("pkg/server/commands", s.typ+".Execute")
 		var backend ssa.CallInstruction
-		var decode, deser ssa.CallInstruction
-		eachInstr(fn, false, func(in ssa.Instruction) {
-			c, ok := in.(ssa.CallInstruction)
-			if !ok || !c.Common().IsInvoke() {
-				return
+		find := func(method string) *site {
+			var out *site
+			scan := func(h *ssa.Function, via ssa.CallInstruction) {
+				eachInstr(h, false, func(in ssa.Instruction) {
+					c, ok := in.(ssa.CallInstruction)
+					if ok && c.Common().IsInvoke() && c.Common().Method.Name() == method && out == nil {
+						out = &site{h, c, via}
+					}
+				})
 			}
-			switch c.Common().Method.Name() {
-			case s.backendMethod:
+			scan(fn, nil)
+			if out != nil {
+				return out
+			}
+			eachInstr(fn, false, func(in ssa.Instruction) {
+				c, ok := in.(ssa.CallInstruction)
+				if !ok {
+					return
+				}
+				if g := staticCallee(c); g != nil && pkgOf(g) == pkgOf(fn) && len(g.Blocks) > 0 && out == nil {
+					scan(g, c)
+				}
+			})
+			return out
+		}
+		eachInstr(fn, false, func(in ssa.Instruction) {
+			if c, ok := in.(ssa.CallInstruction); ok && c.Common().IsInvoke() && c.Common().Method.Name() == s.backendMethod {
 				backend = c
-			case "Decode":
-				decode = c
-			case "Deserialize":
-				deser = c
 			}
 		})
+		decode := find("Decode")
 		name := fname(fn)
 		if backend == nil || decode == nil {
 			blind("token rule: %s: backend call or Decode not found", name)
 		}
+		// behind(site, cutInH): the backend is reached only when, after site.call, a cut edge was passed
+		behind := func(st *site, cutInH func(Fact) bool) bool {
+			if st.via == nil {
+				ok, _ := mustPassFrom(fn, st.call, backend, cutSpec{edge: cutInH})
+				return ok
+			}
+			// helper succeeds only across the cut, and Execute reaches the backend only behind the helper's success
+			leak, _ := reachable(st.h, st.call, okRet, cutSpec{edge: cutInH})
+			ok, _ := mustPassFrom(fn, st.via, backend, cutSpec{edge: errOf(st.via)})
+			return !leak && ok
+		}
 		// (1) backend only after Decode err == nil
-		okDec, _ := mustPass(fn, backend, cutSpec{edge: func(f Fact) bool {
-			return f.Kind == "nil" && f.Positive && derivesFrom(f.X, func(v ssa.Value) bool { return v == decode.(ssa.Value) })
-		}})
-		r.Check(okDec, name+" | backend behind successful Decode", e.instrPos(backend), "Decode error returns before the backend is queried", "the backend can be queried although decoding the continuation token failed (a malformed token is then misread as some position)")
+		r.Check(behind(decode, errOf(decode.call)), name+" | backend behind successful Decode", e.instrPos(backend), "Decode error returns before the backend is queried", "the backend can be queried although decoding the continuation token failed (a malformed token is then misread as some position)")
 		// (2) the position given to the backend derives from the decoded token
 		flows := false
 		for _, a := range backend.Common().Args {
-			if strings.Contains(describe_(a), "Decode(") {
+			d := describe_(a)
+			if strings.Contains(d, "Decode(") {
 				flows = true
+			}
+			if decode.via != nil && strings.Contains(d, "."+decode.h.Name()+"(") {
+				for _, rs := range returnSites(decode.h) {
+					for _, res := range rs.Results {
+						if strings.Contains(describe_(res), "Decode(") {
+							flows = true
+						}
+					}
+				}
 			}
 		}
 		r.Check(flows, name+" | position comes from the decoded token", e.instrPos(backend), "backend options derive from Decode(req.GetContinuationToken())", "the position passed to the backend does not derive from the decoded request token")
 		if s.typ == "ReadChangesQuery" {
+			deser := find("Deserialize")
 			if deser == nil {
 				r.Bad(name+" | token bound to type", e.pos(fn.Pos()), "the ReadChanges token is no longer deserialised into (ulid, type)")
 				continue
 			}
-			// from a Deserialize call, the backend is reachable only across  objType == req.GetType()
 			typeEq := func(f Fact) bool {
 				if f.Kind != "eq" || !f.Positive || f.Y == nil {
 					return false
@@ -270,21 +339,14 @@ func ruleTokenHandling(e *Engine, r *Reporter) {
 				isObjType := func(v ssa.Value) bool {
 					return derivesFrom(v, func(x ssa.Value) bool {
 						ex, ok := x.(*ssa.Extract)
-						return ok && ex.Index == 1 && ex.Tuple == deser.(ssa.Value)
+						return ok && ex.Index == 1 && ex.Tuple == deser.call.(ssa.Value)
 					})
 				}
 				isReqType := func(v ssa.Value) bool { return strings.HasSuffix(describe_(v), ".GetType()") }
 				return isObjType(f.X) && isReqType(f.Y) || isObjType(f.Y) && isReqType(f.X)
 			}
-			reach, _ := reachable(fn, deser, func(in ssa.Instruction) bool { return in == ssa.Instruction(backend) }, cutSpec{edge: typeEq})
-			r.Check(!reach, name+" | token bound to type", e.instrPos(deser), "after Deserialize the backend is reached only when tokenType == req.GetType()", "a continuation token can reach the backend although its type differs from the requested type filter: the walk resumes at a position of another filter and silently skips changes")
-			okDes, _ := mustPassFrom(fn, deser, backend, cutSpec{edge: func(f Fact) bool {
-				return f.Kind == "nil" && f.Positive && derivesFrom(f.X, func(v ssa.Value) bool {
-					ex, ok := v.(*ssa.Extract)
-					return ok && ex.Index == 2 && ex.Tuple == deser.(ssa.Value)
-				})
-			}})
-			r.Check(okDes, name+" | Deserialize error rejects", e.instrPos(deser), "Deserialize error returns", "a token that fails to deserialise still reaches the backend")
+			r.Check(behind(deser, typeEq), name+" | token bound to type", e.instrPos(deser.call), "after Deserialize the backend is reached only when tokenType == req.GetType()", "a continuation token can reach the backend although its type differs from the requested type filter: the walk resumes at a position of another filter and silently skips changes")
+			r.Check(behind(deser, errOf(deser.call)), name+" | Deserialize error rejects", e.instrPos(deser.call), "Deserialize error returns", "a token that fails to deserialise still reaches the backend")
 		}
 	}
 }
